@@ -1029,6 +1029,16 @@ def run_c19(chk):
     for _ in range(12):
         seq = [rng.choice(xq_) for _ in range(6)]
         qs.append((xmldoc, rng.choice(XP.BINDING_VARIANTS + ["", "xml=http://www.w3.org/XML/1998/namespace"]), seq))
+    # reads that depend on the ORDER in which an element presents its attributes (implementation-defined, but the same every
+    # time): written ones, and ones supplied from attribute-list defaults
+    many_ = "".join("%s CDATA '%s' " % (c, c.upper()) for c in "abcdefgh")
+    odocs = ["<!DOCTYPE r [<!ATTLIST r %s>]><r/>" % many_, "<!DOCTYPE r [<!ATTLIST r %s>]><r x='1' c='own' y='2'/>" % many_,
+             "<r " + " ".join("a%d='%d'" % (i, i) for i in range(9)) + "/>"]
+    oq = ["name(/r/@*[1])", "name(/r/@*[2])", "name(/r/@*[3])", "name(/r/@*[last()])", "string(/r/@*[last()])", "string(/r/@*[4])",
+          "concat(name(/r/@*[1]), name(/r/@*[2]), name(/r/@*[5]), '..', name(/r/@*[last()]))", "count(/r/@*)", "name(/r/attribute::*[7])"]
+    for od in odocs:
+        for _ in range(4):
+            qs.append((od, XP.BINDINGS, [rng.choice(oq) for _ in range(8)]))
     h = lib.build_harness()
     one = lib.run_lines(h, [lib.req("query", t, b, *es) for t, b, es in qs], timeout=900, per_line_resume=True)
     fresh = lib.run_lines(h, [lib.req("qfresh", t, b, *es) for t, b, es in qs], timeout=900, per_line_resume=True)
@@ -1077,8 +1087,10 @@ def run_c19(chk):
                               % (i + 1, e), x + "  /  fresh: " + y))
                 break
         else:
+            # (documents with several defaulted attributes: their node-sets fall under the recorded finding default-attr-order
+            # of C05 / C07 - here only the stability of the answers is the subject)
             for e, x, z in zip(es, fa, fm):
-                if x != z and not classify_ns(e, x, z):
+                if x != z and not classify_ns(e, x, z) and t not in odocs[:2]:
                     tdis.append((t, e, x, z))
                     break
     for t, x, y in zip(texts + texts, p1, p2):
